@@ -10,9 +10,12 @@
 EXTENDS RRule, TLC, Json, IOUtils
 Tr == ndJsonDeserialize(IOEnv.TRACE)
 Slack(r) == IF r.tz THEN 1 ELSE 0
+(* PROP=C09 judges only the liveness/safety half: the stream was obtained, whatever is in it *)
+Prop == IF "PROP" \in DOMAIN IOEnv THEN IOEnv.PROP ELSE "C16"
 Verdict(r) ==
   IF "crash" \in DOMAIN r \/ "timeout" \in DOMAIN r THEN "bad"
   ELSE IF "noevent" \in DOMAIN r THEN "skip"                 \* the parser did not accept the event
+  ELSE IF Prop = "C09" THEN "ok"
   ELSE LET occ == [i \in 1..Len(r.occ) |-> Pair(I(r.occ[i]))]
            ds == Pair(I(r.ds)) IN
     IF /\ \A i \in 1..(Len(occ) - 1) : PLt(occ[i], occ[i + 1])
